@@ -10,19 +10,19 @@ Import ListNotations.
 
 (* ------------------------------------------------------------------ contract *)
 Section Steps.
-Context {T V : Type} (o : ops T) (vo : vops T V) (A : V -> V) (selfref zero_nan : bool).
+Context {T V : Type} (o : ops T) (vo : vops T V) (A : V -> V) (selfref zero_nan abs_clip : bool).
 
-Lemma arnoldi_loop_steps tol cap : forall fuel s, snd (arnoldi_loop o vo A selfref tol cap fuel s) <= snd s + fuel /\
-  length (fst (arnoldi_loop o vo A selfref tol cap fuel s)) = length (fst s).
+Lemma arnoldi_loop_steps tol cap : forall fuel s, snd (arnoldi_loop o vo A selfref abs_clip tol cap fuel s) <= snd s + fuel /\
+  length (fst (arnoldi_loop o vo A selfref abs_clip tol cap fuel s)) = length (fst s).
 Proof.
   induction fuel as [|f IH]; intros s; cbn [arnoldi_loop]; [split; [lia|reflexivity]|].
   destruct (arnoldi_cond o selfref tol cap s); [|split; [lia|reflexivity]].
-  destruct (IH (arnoldi_body o vo A selfref tol s)) as [H1 H2]. unfold arnoldi_body in *. cbn [fst snd] in *.
+  destruct (IH (arnoldi_body o vo A selfref abs_clip tol s)) as [H1 H2]. unfold arnoldi_body in *. cbn [fst snd] in *.
   rewrite map_length in H2. split; [lia|exact H2].
 Qed.
 
 (* the loop never takes a step from a state whose counter has reached the cap *)
-Lemma arnoldi_loop_cap tol cap : forall fuel s, snd s <= cap -> snd (arnoldi_loop o vo A selfref tol cap fuel s) <= cap.
+Lemma arnoldi_loop_cap tol cap : forall fuel s, snd s <= cap -> snd (arnoldi_loop o vo A selfref abs_clip tol cap fuel s) <= cap.
 Proof.
   induction fuel as [|f IH]; intros s Hs; cbn [arnoldi_loop]; [exact Hs|].
   destruct (arnoldi_cond o selfref tol cap s) eqn:C; [|exact Hs].
@@ -30,11 +30,11 @@ Proof.
   unfold arnoldi_body. cbn [snd]. lia.
 Qed.
 
-Theorem arnoldi_steps_le tol m n rhs : snd (arnoldi_fact o vo A selfref zero_nan tol m n rhs) <= Nat.min m n.
+Theorem arnoldi_steps_le tol m n rhs : snd (arnoldi_fact o vo A selfref zero_nan abs_clip tol m n rhs) <= Nat.min m n.
 Proof. unfold arnoldi_fact. apply arnoldi_loop_cap. cbn [snd]. lia. Qed.
 
 Theorem gmres_products solve flag pad_buf tol mfac m n bs x0s :
-  gsteps (gmres_fwd o vo A solve flag pad_buf selfref zero_nan tol mfac m n bs x0s) <= Nat.min m n.
+  gsteps (gmres_fwd o vo A solve flag pad_buf selfref zero_nan abs_clip tol mfac m n bs x0s) <= Nat.min m n.
 Proof. unfold gmres_fwd. cbn [gsteps]. apply arnoldi_steps_le. Qed.
 End Steps.
 
@@ -137,11 +137,11 @@ Hypothesis nrm_real : forall v, conj (vnrm o vo v) = vnrm o vo v.
    and non-zero, then
    the extended basis is orthonormal and the new column of H satisfies the Arnoldi relation
       A q_idx = sum_{i <= idx+1} H[i, idx] q_i      (weakly: tested against every u). *)
-Theorem arnoldi_step_spec selfref tol (c : acol (T:=T) (V:=V)) :
+Theorem arnoldi_step_spec selfref abs_clip tol (c : acol (T:=T) (V:=V)) :
   orthonormal (aqs c) ->
-  let c' := arnoldi_step o vo A selfref tol c in
+  let c' := arnoldi_step o vo A selfref abs_clip tol c in
   forall w hs, mgs vo (aqs c) (A (alast c)) [] = (w, hs) ->
-  next_q o vo selfref tol w (vnrm o vo w) = vdivs vo w (vnrm o vo w) -> vnrm o vo w <> 0 ->
+  next_q o vo selfref (step_thr o abs_clip tol (ahs c ++ [rev hs ++ [vnrm o vo w]])) w (vnrm o vo w) = vdivs vo w (vnrm o vo w) -> vnrm o vo w <> 0 ->
   orthonormal (aqs c') /\
   exists hcol, ahs c' = ahs c ++ [hcol] /\ length hcol = S (length (aqs c)) /\ aqs c' = aqs c ++ [alast c'] /\
     forall u, dot u (A (alast c)) = lsum (zipw (fun h q => h * dot u q) hcol (aqs c')).
